@@ -221,8 +221,144 @@ theorem lt_guard (x y : FV) :
       (match cmpReal x y with | none => Tri.u | some Ordering.lt => Tri.t | some _ => Tri.f) := by
   cases x <;> cases y <;> simp [isNaN, cmpReal, lt] <;> (repeat' split) <;> simp_all
 
-theorem lessThan_eq (E : Env) (x y : Val) : calculateLessThan E x y = Spec.lessThan E strLt x y := by
-  cases x <;> cases y <;> simp only [calculateLessThan, Spec.lessThan, toFloat, Spec.toNumber] <;>
+/-! ### string order: lessThanUTF16 = comparison of UTF-16 code units, for ALL byte strings -/
+section StrOrder
+open OttoVerif.Str
+
+def ScalarRune (r : Nat) : Prop := r < 0x110000 ∧ ¬ (0xD800 ≤ r ∧ r ≤ 0xDFFF)
+
+def encUnits (r : Nat) : List Nat :=
+    if (0xD800 ≤ r ∧ r ≤ 0xDFFF) ∨ r > 0x10FFFF then [runeError]
+    else if r < 0x10000 then [r]
+    else let r' := r - 0x10000; [0xD800 + r' / 1024, 0xDC00 + r' % 1024]
+
+theorem utf16Encode_cons (r : Nat) (t : List Nat) : utf16Encode (r :: t) = encUnits r ++ utf16Encode t := by
+  simp [utf16Encode, encUnits, List.flatMap_cons]
+
+theorem strLt_append_same (p a b : List Nat) : strLt (p ++ a) (p ++ b) = strLt a b := by
+  induction p with
+  | nil => rfl
+  | cons x p ih => simp [strLt, ih]
+
+theorem encUnits_ne_nil (r : Nat) : encUnits r ≠ [] := by
+  simp only [encUnits]; split <;> try split
+  all_goals simp
+
+theorem runeLess_eq (l1 l2 : List Nat) (h1 : ∀ r ∈ l1, ScalarRune r) (h2 : ∀ r ∈ l2, ScalarRune r) :
+    runeLess l1 l2 = strLt (utf16Encode l1) (utf16Encode l2) := by
+  induction l1 generalizing l2 with
+  | nil =>
+    cases l2 with
+    | nil => rfl
+    | cons r t =>
+      rw [utf16Encode_cons]
+      cases he : encUnits r with
+      | nil => exact absurd he (encUnits_ne_nil r)
+      | cons u us => simp [runeLess, utf16Encode, strLt]
+  | cons r1 t1 ih =>
+    cases l2 with
+    | nil =>
+      rw [utf16Encode_cons]
+      cases he : encUnits r1 with
+      | nil => exact absurd he (encUnits_ne_nil r1)
+      | cons u us => simp [runeLess, utf16Encode, strLt]
+    | cons r2 t2 =>
+      have s1 := h1 r1 (List.mem_cons_self ..)
+      have s2 := h2 r2 (List.mem_cons_self ..)
+      rw [utf16Encode_cons, utf16Encode_cons]
+      by_cases hr : r1 = r2
+      · subst hr
+        simp only [runeLess, ne_eq, not_true_eq_false, if_false, strLt_append_same]
+        exact ih t2 (fun r hr => h1 r (List.mem_cons_of_mem _ hr)) (fun r hr => h2 r (List.mem_cons_of_mem _ hr))
+      · simp only [runeLess, ne_eq, hr, not_false_eq_true, if_true]
+        unfold ScalarRune at s1 s2
+        have e1 : ¬ ((0xD800 ≤ r1 ∧ r1 ≤ 0xDFFF) ∨ r1 > 0x10FFFF) := by omega
+        have e2 : ¬ ((0xD800 ≤ r2 ∧ r2 ≤ 0xDFFF) ∨ r2 > 0x10FFFF) := by omega
+        simp only [encUnits, e1, e2, if_false, cmpRune]
+        by_cases b1 : r1 < 0x10000 <;> by_cases b2 : r2 < 0x10000
+        · simp only [b1, b2, if_true, List.cons_append, List.nil_append, strLt]
+          have n1 : ¬ r1 ≥ 0x10000 := by omega
+          have n2 : ¬ r2 ≥ 0x10000 := by omega
+          simp only [n1, n2, decide_false, bne_self_eq_false, Bool.false_eq_true, if_false]
+          by_cases c : r1 < r2
+          · simp [c]
+          · have : r1 > r2 := by omega
+            simp [c, this]
+        · have n1 : ¬ r1 ≥ 0x10000 := by omega
+          have n2 : r2 ≥ 0x10000 := by omega
+          simp only [b1, b2, n1, n2, if_true, if_false, List.cons_append, List.nil_append, strLt, decide_true, decide_false]
+          simp only [show (false != true) = true from rfl, if_true]
+          split
+          · simp; omega
+          · split
+            · simp; omega
+            · exfalso; omega
+        · have n1 : r1 ≥ 0x10000 := by omega
+          have n2 : ¬ r2 ≥ 0x10000 := by omega
+          simp only [b1, b2, n1, n2, if_true, if_false, List.cons_append, List.nil_append, strLt, decide_true, decide_false]
+          simp only [show (true != false) = true from rfl, if_true]
+          split
+          · simp; omega
+          · split
+            · simp; omega
+            · exfalso; omega
+        · have n1 : r1 ≥ 0x10000 := by omega
+          have n2 : r2 ≥ 0x10000 := by omega
+          simp only [b1, b2, n1, n2, if_true, if_false, List.cons_append, List.nil_append, strLt, decide_true, decide_false]
+          simp only [show (true != true) = false from rfl, Bool.false_eq_true, if_false]
+          split
+          · simp; omega
+          · split
+            · simp; omega
+            · split
+              · simp; omega
+              · split
+                · simp; omega
+                · exfalso; omega
+
+theorem scalarRune_runeError : ScalarRune runeError := by unfold ScalarRune runeError; omega
+
+theorem decodeRune_scalar (bs : List Nat) (r w : Nat) (h : decodeRune bs = some (r, w)) : ScalarRune r := by
+  unfold decodeRune at h
+  cases bs with
+  | nil => cases h
+  | cons b0 rest =>
+    simp only at h
+    have re := scalarRune_runeError
+    unfold ScalarRune runeError at re
+    unfold ScalarRune
+    simp only [isCont, runeError] at h
+    repeat' split at h
+    all_goals (try simp only [decide_eq_true_eq] at *)
+    all_goals (repeat' split at h)
+    all_goals (simp only [Option.some.injEq, Prod.mk.injEq] at h; omega)
+
+theorem decodeRunesAux_scalar (fuel : Nat) (bs : List Nat) : ∀ r ∈ decodeRunesAux fuel bs, ScalarRune r := by
+  induction fuel generalizing bs with
+  | zero => intro r hr; simp [decodeRunesAux] at hr
+  | succ n ih =>
+    intro r hr
+    simp only [decodeRunesAux] at hr
+    cases hd : decodeRune bs with
+    | none => rw [hd] at hr; simp at hr
+    | some p =>
+      obtain ⟨r0, w⟩ := p
+      rw [hd] at hr
+      simp only [List.mem_cons] at hr
+      rcases hr with rfl | hr
+      · exact decodeRune_scalar bs _ w hd
+      · exact ih _ r hr
+
+theorem decodeRunes_scalar (bs : List Nat) : ∀ r ∈ decodeRunes bs, ScalarRune r := decodeRunesAux_scalar _ bs
+
+/-- the new string order of calculateLessThan = comparison of UTF-16 code units, for ALL byte strings -/
+theorem lessThanUTF16_eq (a b : List Nat) : lessThanUTF16 a b = Spec.unitLt a b :=
+  runeLess_eq _ _ (decodeRunes_scalar a) (decodeRunes_scalar b)
+
+end StrOrder
+
+theorem lessThan_eq (E : Env) (x y : Val) : calculateLessThan E x y = Spec.lessThan E Spec.unitLt x y := by
+  cases x <;> cases y <;> simp only [calculateLessThan, Spec.lessThan, toFloat, Spec.toNumber, lessThanUTF16_eq] <;>
     first | rfl | exact lt_guard _ _
 
 theorem strictEq_diff_kind (E : Env) (x y : Val) (h : x.kind ≠ y.kind) : Spec.strictEq E x y = false := by
@@ -245,12 +381,12 @@ theorem loose_eq (E : Env) (x y : Val) : looseEq E 3 x y = Spec.looseEq E 4 x y 
 /-- C05.comparison: every comparison operator on every pair of primitive values (any Go number
     kind, any string): otto's calculateComparison = ES5 §11.8.1–4, §11.9.1–6 -/
 theorem comparison_eq (E : Env) (c : Cmp) (x y : Val) :
-    calculateComparison E c x y = Spec.compare E strLt c x y := by
+    calculateComparison E c x y = Spec.compare E Spec.unitLt c x y := by
   cases c <;> simp only [calculateComparison, Spec.compare, lessThan_eq, strict_eq, loose_eq]
-  · cases Spec.lessThan E strLt x y <;> rfl
-  · cases Spec.lessThan E strLt y x <;> rfl
-  · cases Spec.lessThan E strLt y x <;> rfl
-  · cases Spec.lessThan E strLt x y <;> rfl
+  · cases Spec.lessThan E Spec.unitLt x y <;> rfl
+  · cases Spec.lessThan E Spec.unitLt y x <;> rfl
+  · cases Spec.lessThan E Spec.unitLt y x <;> rfl
+  · cases Spec.lessThan E Spec.unitLt x y <;> rfl
 
 theorem alignInt_zero (s : Bool) (e emin : Int) : alignInt s 0 e emin = 0 := by
   unfold alignInt; cases s <;> simp
